@@ -7,12 +7,14 @@ after the item, no length byte count 0, payload present, W-bit only on odd funct
 encoding the library produces is accepted and decoded to the same message (C01), and the
 result of decoding is a fixed point of encode→decode.
 
-`accept_iff_partial`: the full characterisation "accepted ⇔ Denotes" with the lenient reading
-relation for non-minimal length bytes is stated in DESIGN.md §6.3; the direction still missing
-as a theorem is completeness for NON-minimal length bytes (the minimal case is C01); it is
-covered by the correspondence run (suite decode/valid-and-nonminimal).
+The item level is characterised completely against `Spec.Denotes`, the lenient reading relation
+(1, 2 or 3 length bytes, minimal or not; any non-zero boolean byte; 7-bit characters; finite
+floats; whole numbers of values): `item_sound`, `item_complete`, `item_functional`; and the
+message level by `accept_iff`: a byte string is accepted iff it is one well-formed HSMS message
+(`WellFormed`).
 -/
 import SecsModel.Props.C01
+import SecsModel.Proofs.Denotes
 namespace Secs.C03
 open Secs
 
@@ -129,6 +131,198 @@ theorem missing_payload_refused (f : Fmt) (hf : f ≠ .list) (k n : Nat) (rest :
   simp only [h4, h5, hk0, if_false, h1, List.take_left' (beEnc_length k n), List.drop_left' (beEnc_length k n),
     beDec_beEnc k n hn, decodeFmt_code]
   cases f <;> first | exact absurd rfl hf | simp [hshort]
+
+/-- soundness: what the decoder returns for an item is denoted by exactly the bytes it consumed -/
+theorem item_sound (fuel : Nat) (inp : Bytes) (t : Tmpl) (r : Bytes) (h : decItem fuel inp = some (t, r))
+    (hb : IsBytes inp) : ∃ p, inp = p ++ r ∧ Spec.Denotes p t :=
+  dec_sound fuel inp t r h hb
+
+/-- completeness: whatever bytes denote an item — minimal length bytes or not — are decoded to
+exactly that item, leaving what follows untouched -/
+theorem item_complete (t : Tmpl) (p : Bytes) (h : Spec.Denotes p t) (rest : Bytes) (fuel : Nat) (hf : t.sz ≤ fuel) :
+    decItem fuel (p ++ rest) = some (t, rest) :=
+  dec_complete t p h rest fuel hf
+
+/-- bytes denote at most one item -/
+theorem item_functional (p : Bytes) (t t' : Tmpl) (h : Spec.Denotes p t) (h' : Spec.Denotes p t') : t = t' :=
+  denotes_fun p t t' h h'
+
+/-- the fuel the decoder passes (text length + 1) suffices for every denoted item -/
+theorem denoted_fuel (t : Tmpl) (p : Bytes) (h : Spec.Denotes p t) : t.sz ≤ p.length + 1 := by
+  -- decoding with ample fuel succeeds, and every decoded item consumed ≥ 2 bytes per node
+  have hc := dec_complete t p h [] (t.sz) (Nat.le_refl _)
+  simp only [List.append_nil] at hc
+  have := sz_le_of_dec t.sz p t [] hc
+  simp at this; omega
+
+/-- one well-formed HSMS message: at least a header, declared length = bytes present, PType 0,
+and either a data message whose text is empty or denotes exactly one item (nothing left over)
+and does not set the W-bit on an even function, or a control message with a defined SType that
+is exactly a header -/
+def WellFormed (b : Bytes) : Prop :=
+  14 ≤ b.length ∧ beDec (b.take 4) + 4 = b.length ∧ b.getD 8 0 = 0 ∧
+  ((b.getD 9 0 = 0 ∧ (b.length = 14 ∨ ∃ t, Spec.Denotes (b.drop 14) t) ∧
+      ¬ (b.getD 6 0 / 128 = 1 ∧ b.getD 7 0 % 2 = 0)) ∨
+   (((1 ≤ b.getD 9 0 ∧ b.getD 9 0 ≤ 7) ∨ b.getD 9 0 = 9) ∧ b.length = 14))
+
+theorem getD_take_drop (b : Bytes) (i : Nat) (hi : i < 10) (hl : 14 ≤ b.length) :
+    ((b.drop 4).take 10).getD i 0 = b.getD (4 + i) 0 := by
+  simp [List.getD_eq_getElem?_getD, List.getElem?_take, List.getElem?_drop, hi]
+
+/-- the text of a data message is accepted iff it denotes one item, with nothing left over -/
+theorem text_accepted_iff (text : Bytes) (hb : IsBytes text) :
+    (∃ t, decItem (text.length + 1) text = some (t, [])) ↔ ∃ t, Spec.Denotes text t := by
+  constructor
+  · rintro ⟨t, h⟩
+    obtain ⟨p, hp, hd⟩ := dec_sound _ _ _ _ h hb
+    simp only [List.append_nil] at hp
+    exact ⟨t, hp ▸ hd⟩
+  · rintro ⟨t, h⟩
+    have := dec_complete t text h [] (text.length + 1) (denoted_fuel t text h)
+    simp only [List.append_nil] at this
+    exact ⟨t, this⟩
+
+/-- the message constructor used by the decoder refuses exactly the W-bit on an even function -/
+theorem hsms_ctor_iff (s f w sid : Int) (hs : 0 ≤ s ∧ s < 128) (hf : 0 ≤ f ∧ f < 256) (hw : w = 0 ∨ w = 1)
+    (hsid : 0 ≤ sid ∧ sid < 65536) (item : Tmpl) (hv : item.vars.isEmpty = true) (sys : Bytes) (hsys : sys.length = 4) :
+    (mkHsmsMsg [] s f w dirBoth item sid sys).isSome = true ↔ ¬ (w = 1 ∧ f % 2 = 0) := by
+  obtain ⟨a, b, c, d, rfl⟩ := length4 sys hsys
+  constructor
+  · rintro h ⟨h1, h2⟩
+    have hvalid : Msg.valid ⟨[], s, f, w, dirBoth, item, sid, pad4 [a, b, c, d]⟩ = false := by
+      simp only [Msg.valid, Bool.and_eq_false_iff]
+      left; left; left; left; right
+      simp only [Bool.not_eq_false', Bool.and_eq_true, beq_iff_eq]
+      exact ⟨h1, h2⟩
+    have hn : mkHsmsMsg [] s f w dirBoth item sid [a, b, c, d] = none := by
+      unfold mkHsmsMsg checked
+      rw [hvalid]
+      split
+      · rfl
+      · split
+        · rfl
+        · split <;> rfl
+    rw [hn] at h
+    cases h
+  · intro h
+    rw [C01.mkHsms_ok s f w sid item a b c d hs hf hw h hsid hv]
+    rfl
+
+/-- accepted ⇔ one well-formed HSMS message -/
+theorem accept_iff (b : Bytes) (hb : IsBytes b) : (decode b).isSome = true ↔ WellFormed b := by
+  unfold WellFormed
+  by_cases hf : frameOk b = true
+  · have hfr := hf
+    simp only [frameOk, Bool.and_eq_true, Bool.not_eq_true', decide_eq_false_iff_not, beq_iff_eq,
+      List.length_drop] at hfr
+    obtain ⟨⟨hlen, hml⟩, hpt⟩ := hfr
+    have h14 : 14 ≤ b.length := by omega
+    have hbyte : ∀ i, b.getD i 0 < 256 := by
+      intro i
+      rw [List.getD_eq_getElem?_getD]
+      cases hg : b[i]? with
+      | none => decide
+      | some v => exact hb v (List.mem_of_getElem? hg)
+    have hb6 := hbyte 6
+    have hb7 := hbyte 7
+    unfold decode
+    simp only [hf, Bool.not_true, Bool.false_eq_true, if_false]
+    by_cases h0 : b.getD 9 0 = 0
+    · have h0' : (b.getD 9 0 == 0) = true := by rw [h0]; rfl
+      simp only [h0', if_true]
+      have hsid : beDec (((b.drop 4).take 10).take 2) < 65536 := by
+        have := beDec_lt (((b.drop 4).take 10).take 2) (isBytes_take _ _ (isBytes_take _ _ (isBytes_drop _ _ hb)))
+        have hl : (((b.drop 4).take 10).take 2).length = 2 := by simp; omega
+        rw [hl] at this; exact this
+      have hsys : (((b.drop 4).take 10).drop 6).length = 4 := by simp; omega
+      have g2 := getD_take_drop b 2 (by omega) h14
+      have g3 := getD_take_drop b 3 (by omega) h14
+      simp only [show 4 + 2 = 6 from rfl, show 4 + 3 = 7 from rfl] at g2 g3
+      have hctor := fun item hv => hsms_ctor_iff ((b.getD 6 0 % 128 : Nat) : Int) ((b.getD 7 0 : Nat) : Int)
+        ((b.getD 6 0 / 128 : Nat) : Int) ((beDec (((b.drop 4).take 10).take 2) : Nat) : Int)
+        (by omega) (by omega) (by omega) (by omega) item hv _ hsys
+      have hwbit : (((b.getD 6 0 / 128 : Nat) : Int) = 1 ∧ ((b.getD 7 0 : Nat) : Int) % 2 = 0) ↔
+          (b.getD 6 0 / 128 = 1 ∧ b.getD 7 0 % 2 = 0) := by omega
+      unfold decodeData
+      simp only []
+      rw [g2, g3]
+      by_cases h10 : b.length = 14
+      · have h10' : (beDec (b.take 4) == 10) = true := by
+          have : beDec (b.take 4) = 10 := by omega
+          rw [this]; rfl
+        rw [if_pos h10']
+        show (Option.map HMsg.data _).isSome = true ↔ _
+        rw [Option.isSome_map, hctor .empty rfl, hwbit]
+        constructor
+        · intro h; exact ⟨h14, by omega, hpt, Or.inl ⟨h0, Or.inl h10, h⟩⟩
+        · rintro ⟨_, _, _, h | h⟩
+          · exact h.2.2
+          · omega
+      · have h10' : (beDec (b.take 4) == 10) = false := by
+          have : beDec (b.take 4) ≠ 10 := by omega
+          simpa using this
+        rw [if_neg (by rw [h10']; decide)]
+        have htx := text_accepted_iff (b.drop 14) (isBytes_drop _ _ hb)
+        cases hdt : decodeText (b.drop 14) with
+        | none =>
+          simp only [Option.isSome_none, Bool.false_eq_true, false_iff]
+          rintro ⟨_, _, _, h | h⟩
+          · rcases h.2.1 with h14' | hden
+            · exact h10 h14'
+            · obtain ⟨t, ht⟩ := htx.mpr hden
+              rw [(decodeText_some _ _).mpr ht] at hdt
+              cases hdt
+          · omega
+        | some t =>
+          have ht := (decodeText_some _ _).mp hdt
+          have hcl := denotes_closed _ _ (dec_sound _ _ _ _ ht (isBytes_drop _ _ hb)).choose_spec.2
+          show (Option.map HMsg.data _).isSome = true ↔ _
+          rw [Option.isSome_map, hctor t (by rw [vars_closed t hcl]; rfl), hwbit]
+          constructor
+          · intro h
+            exact ⟨h14, by omega, hpt, Or.inl ⟨h0, Or.inr (htx.mp ⟨t, ht⟩), h⟩⟩
+          · rintro ⟨_, _, _, h | h⟩
+            · exact h.2.2
+            · omega
+    · have h0' : (b.getD 9 0 == 0) = false := by simpa using h0
+      simp only [h0', Bool.false_eq_true, if_false]
+      by_cases hc : ((decide (1 ≤ b.getD 9 0) && decide (b.getD 9 0 ≤ 7)) || b.getD 9 0 == 9) = true
+      · simp only [hc, if_true, decodeCtrl]
+        have hc' : (1 ≤ b.getD 9 0 ∧ b.getD 9 0 ≤ 7) ∨ b.getD 9 0 = 9 := by
+          simp only [Bool.or_eq_true, Bool.and_eq_true, decide_eq_true_eq, beq_iff_eq] at hc
+          exact hc
+        by_cases hl : b.length = 14
+        · have h10' : (beDec (b.take 4) != 10) = false := by
+            have : beDec (b.take 4) = 10 := by omega
+            rw [this]; rfl
+          have hmk : (mkCtrl ((b.drop 4).take 10)).isSome = true := by
+            unfold mkCtrl
+            have : ¬ ((b.drop 4).take 10).length > 10 := by simp; omega
+            rw [if_neg this]; rfl
+          rw [if_neg (by rw [h10']; decide), Option.isSome_map, hmk]
+          simp only [true_iff]
+          exact ⟨h14, by omega, hpt, Or.inr ⟨hc', hl⟩⟩
+        · have h10' : (beDec (b.take 4) != 10) = true := by
+            have : beDec (b.take 4) ≠ 10 := by omega
+            simpa using this
+          rw [if_pos h10']
+          simp only [Option.isSome_none, Bool.false_eq_true, false_iff]
+          rintro ⟨_, _, _, h | h⟩
+          · exact h0 h.1
+          · exact hl h.2
+      · simp only [hc, Bool.false_eq_true, if_false, Option.isSome_none, false_iff]
+        rintro ⟨_, _, _, h | h⟩
+        · exact h0 h.1
+        · apply hc
+          simp only [Bool.or_eq_true, Bool.and_eq_true, decide_eq_true_eq, beq_iff_eq]
+          exact h.1
+  · have : decode b = none := by unfold decode; simp [hf]
+    rw [this]
+    simp only [Option.isSome_none, Bool.false_eq_true, false_iff]
+    rintro ⟨h1, h2, h3, _⟩
+    apply hf
+    simp only [frameOk, Bool.and_eq_true, Bool.not_eq_true', decide_eq_false_iff_not, beq_iff_eq, List.length_drop]
+    exact ⟨⟨by omega, by omega⟩, h3⟩
 
 /-- tie to the source: the decoder's dispatch table -/
 theorem facts_dispatch :
